@@ -1,7 +1,7 @@
 #!/venv/bin/python
 """Re-run every filed seeded / harmless change against the current checks and rewrite its meta.json.
 
-usage: tools/reverify_all.py [seeded|benign|both] [--jobs N] [--only Cxx ...] [--skip Cyy ...]
+usage: tools/reverify_all.py [seeded|benign|both] [--jobs N] [--only Cxx ...] [--skip Cyy ...] [--touch Czz ...]
 
 Changes are vetted in place (tools/file_seed.py / tools/file_benign.py on the filed directory).
 Checks of one lock group are never run concurrently against different trees (they share generated
@@ -58,7 +58,7 @@ def main():
                 break
             out.append(a)
         return set(out)
-    only, skip = opt("--only"), opt("--skip") or set()
+    only, skip, touch = opt("--only"), opt("--skip") or set(), opt("--touch")
     jobs = []
     for kind in (["seeded", "benign"] if which == "both" else [which]):
         for d in sorted((VERIF / kind).iterdir()):
@@ -70,6 +70,8 @@ def main():
             if only and prop not in only:
                 continue
             if skip & set([prop] + also):
+                continue
+            if touch and not (touch & set([prop] + also)):
                 continue
             jobs.append((kind, d, prop, also))
     # interleave the properties so that the pool is not queued up behind one lock
